@@ -208,10 +208,24 @@ def path_failure_is_false(ctx):
     # __getattr__ / map extend the path at the end
     for q, expect in (("BaseQuery.__getattr__", "self._path + (item,)"), ("BaseQuery.map", "self._path + (func,)")):
         g = ctx.prog.func(q, "C09.R2")
-        ok = any(isinstance(n, ast.Assign) and norm(n.targets[0]).endswith("._path") and norm(n.value) == expect
-                 for n in walk_local(g.node))
-        ok2 = any(isinstance(n, ast.Assign) and norm(n.targets[0]).endswith("._point_attr")
-                  and norm(n.value) == "self._point_attr" for n in walk_local(g.node))
+        # assignments of the method itself, plus those of a module-level helper it calls, with the
+        # helper's parameters replaced by the call's arguments
+        texts = [(norm(n.targets[0]), norm(n.value)) for n in walk_local(g.node) if isinstance(n, ast.Assign)]
+        for c in walk_local(g.node):
+            if isinstance(c, ast.Call) and isinstance(c.func, ast.Name):
+                tg = ctx.res.resolve_name(c.func.id, g)
+                if tg and isinstance(tg[0], Func) and tg[0].module == "queries" and tg[0].cls is None:
+                    h = tg[0]
+                    b_, _ = bind_args(c, h, skip_self=False)
+                    import re as _re
+                    for n in walk_local(h.node):
+                        if isinstance(n, ast.Assign):
+                            v_ = norm(n.value)
+                            for k_, a_ in b_.items():
+                                v_ = _re.sub(rf"(?<![\w.]){_re.escape(k_)}(?![\w])", norm(a_), v_)
+                            texts.append((norm(n.targets[0]), v_))
+        ok = any(t_.endswith("._path") and v_ == expect for t_, v_ in texts)
+        ok2 = any(t_.endswith("._point_attr") and v_ == "self._point_attr" for t_, v_ in texts)
         yield Ob("C09.R2", ["C09"], f"{q} | extends the path at the end and keeps the point attribute", ok and ok2,
                  "path + (part,), same point attribute" if ok and ok2 else
                  "the new query does not append the part to the path / keep the point attribute", g.loc())
@@ -263,7 +277,7 @@ def boolean_operators(ctx):
             if not any(len(c) == 1 and next(iter(c)) in (("truthy(self.query2)", True), ("is(None,self.query2)", False))
                        for c in cl):
                 bad.append("binary application is not conditional on query2 being present")
-    yield Ob("C09.R3", ["C09"], f"{f.qual} | applies the operator to both verdicts", not bad,
+    yield Ob("C09.R3", ["C09", "C17"], f"{f.qual} | applies the operator to both verdicts", not bad,
              "; ".join(bad) if bad else "operator(q1(p), q2(p)) when binary, operator(q1(p)) when unary", f.loc())
     init = ctx.prog.func("CompoundQuery.__init__", "C09.R3")
     st = {norm(n.targets[0]): norm(n.value) for n in walk_local(init.node) if isinstance(n, ast.Assign)}
@@ -606,6 +620,13 @@ def unhashable_never_equal(ctx):
             if isinstance(v, ast.IfExp) and norm(v.test) == "self.is_hashable()" and norm(v.body) == "hashval" \
                     and const_value(v.orelse) is None:
                 ok = True
+    rebound = [n for n in walk_local(gen.node) if isinstance(n, (ast.Assign, ast.AugAssign, ast.AnnAssign))
+               and any(isinstance(x, ast.Name) and isinstance(x.ctx, ast.Store) and x.id in ("hashval", "rhs", "operator", "args")
+                       for x in ast.walk(n))]
+    yield Ob("C17.R3", ["C17"], f"{gen.qual} | identity and test are built from the same, unmodified arguments", not rebound,
+             "hashval, rhs, operator and args are used as passed" if not rebound else
+             f"`{norm(rebound[0], 70)}` rebinds an argument: the identity no longer describes what the test compares "
+             f"against, so queries that evaluate differently can compare equal", gen.loc())
     yield Ob("C17.R3", ["C17"], f"{gen.qual} | simple query identity requires a hashable base", ok,
              "hashval if self.is_hashable() else None" if ok else
              "a query built on an unhashable base still gets an identity", gen.loc())
